@@ -14,7 +14,11 @@ Definition vptable := list (N * pystr).
 Definition vpat_text (t : vptable) (p : N) : pystr :=
   match find (fun e => N.eqb (fst e) p) t with Some e => snd e | None => [] end.
 
+Definition veinfo_of (l : list (pystr * eopts)) : einfo_t :=
+  fun cn => match alist_get l cn with Some o => o | None => no_einfo cn end.
+
 Record vcase := { vc_pats : vptable;
+                  vc_einfo : list (pystr * eopts);   (* per enum class: mix-in, serialization_by_value of its fields *)
                   vc_field : field;
                   vc_obj : pyval;                 (* the real Field object, reified *)
                   vc_out : option pyval }.        (* what the real convert_to_schema(o, {}) returned; None: it raised *)
@@ -25,7 +29,7 @@ Definition ok_store (k v : pyval) : res unit := Ok tt.
 Definition VFUEL : nat := 40.
 
 Definition view_mismatch (c : vcase) : bool :=
-  negb (pyval_eqb (field_obj (vpat_text (vc_pats c)) (vc_field c)) (vc_obj c)).
+  negb (pyval_eqb (field_obj (vpat_text (vc_pats c)) (veinfo_of (vc_einfo c)) (vc_field c)) (vc_obj c)).
 
 Definition src_mismatch (c : vcase) : bool :=
   match convert_to_schema no_s2s ok_store VFUEL (vc_obj c) PNone, vc_out c with
@@ -37,6 +41,7 @@ Definition src_mismatch (c : vcase) : bool :=
 (* the hand model against the same observation, exactly (key order included) *)
 Definition model_mismatch (c : vcase) : bool :=
   match vc_out c with
-  | Some j' => negb (mappable (vc_field c) && pyval_eqb (sch_json (vpat_text (vc_pats c)) (fschema (vc_field c))) j')
-  | None => mappable (vc_field c)
+  | Some j' => negb (mappable (veinfo_of (vc_einfo c)) (vc_field c)
+                     && pyval_eqb (sch_json (vpat_text (vc_pats c)) (fschema (veinfo_of (vc_einfo c)) (vc_field c))) j')
+  | None => mappable (veinfo_of (vc_einfo c)) (vc_field c)
   end.
